@@ -1106,6 +1106,11 @@ class Interp:
             return [start + i * step for i in range(self.max_loop + 1)]
         if recv is None and meth == "type" and len(args) == 1 and not isinstance(args[0], (Residual, Obj)):
             return Residual(type(args[0]).__name__)
+        # getattr(x, "name") on a symbolic object with a constant name is the attribute x.name
+        if recv is None and meth == "getattr" and len(args) >= 2 and isinstance(args[0], Residual) and isinstance(args[1], str):
+            k = f"{args[0].text}.{args[1]}"
+            ok, v = self.lookup(k)
+            return v if ok else Residual(k)
         # reflection with a constant name on an abstract object: the same store the attribute syntax uses
         if recv is None and meth in ("getattr", "hasattr", "setattr") and len(args) >= 2 and isinstance(args[0], Obj) and isinstance(args[1], str):
             k = f"{args[0].name}.{args[1]}"
